@@ -53,7 +53,7 @@ checks = {
    text="every program assignment of 2-3 threads x 1-2 Storage operations (Create/Get/Put/CasByVersion/Delete/PutMany/GetMany) from the empty and a pre-loaded store; in-memory: every schedule within P<=3 with points at the mutex and at every statement executed without the mutex; Redis: every interleaving of the clients' Redis commands against miniredis; plus a family with scheduling points inside the in-memory critical sections and a Create whose context may be cancelled at any moment, and a Redis family where the reply to one write command (SET, SETNX, EXEC) is lost after the server executed it (F<=1); oracle: documented outcomes only, write<->version bijection (freshness), per-key linearizability (a write of unknown outcome is judged both ways), final read-all",
    note="Redis atomicity is explored at command granularity (the granularity at which SETNX/WATCH protect); miniredis is trusted to execute single commands atomically like Redis; go-redis internals run uninstrumented inside one scheduling step; version freshness under true parallelism (id generator) and data races are covered by the supplementary free-running -race audit (inmem, ulid), which is time-boxed, not exhaustive"),
  "C04": dict(engine="S", cat="model_checking", tech=S,
-   text="every schedule within P<=2 (thorough 3) of 2-3 worker programs over Lock/TryLock/LockWithCtx+canceller/cancelled ctx/TryLock with a cancelled ctx/two attempts/hold across a renewal, plus a Shutdown pseudo thread, on the in-memory storage as it is and on a variant that refuses calls whose context has ended, with a scheduling point while the reply of Create/Delete is in transit; oracles: no deadlock with a blocked worker (lost wake-up), cancelled attempts return ctx.Err(), at the end the lock record is gone, the in-memory waiter table is empty and every Locker can be re-acquired, nothing acquires after Shutdown returned",
+   text="every schedule within P<=2 (thorough 3) of 2-3 worker programs over Lock/TryLock/LockWithCtx+canceller/cancelled ctx/TryLock with a cancelled ctx/two attempts/hold across a renewal, plus a Shutdown pseudo thread, on the in-memory storage as it is and on a variant that refuses calls whose context has ended, with a scheduling point while the reply of Create/Delete is in transit; plus a family with one injected storage fault (request or reply lost, on any Storage method the locker calls) whose oracle is that no worker stays blocked and every Locker is usable again once all leases have lapsed; oracles: no deadlock with a blocked worker (lost wake-up), cancelled attempts return ctx.Err(), at the end the lock record is gone, the in-memory waiter table is empty and every Locker can be re-acquired, nothing acquires after Shutdown returned",
    note="liveness is judged as 'not blocked at quiescence' (no fairness assumption is needed: the SUT has no spin loops on the in-memory storage); weaker reading of 'after Shutdown': attempts invoked after Shutdown() returned"),
  "C05": dict(engine="S", cat="model_checking", tech=S + " with a virtual clock (maximal progress)",
    text="scenario families on the virtual clock for leases 30ms/10s/100s (in-memory) and 300ms/700ms (kvs/redis over miniredis): handover to a long-waiting contender; up to 4 spaced lost renewal requests in one tenure of 4.5 leases; a storage that needs a sixth of a lease per renewal (request or reply side) with context deadlines on the virtual clock; the acquisition context ending during the tenure on a context-honouring storage; lease kept over 3.5 leases with a contender and a prober (every renewal call may be lost, request or reply, F<=1); holder death at 6 scripted phases and at any scheduling point, contender must hold the lock within lease + one renewal period; Unlock exactly at the renewal instant followed by a second tenure, at most one stale renewal reaches the storage, none succeeds, timers and timer goroutines wind down",
